@@ -144,6 +144,10 @@ func (g *luaGen) stmt() {
 			mode = 4
 			g.feat["close-raises"] = true
 		}
+		if g.inCo && g.t.Chance(1, 8) {
+			mode = 5
+			g.feat["close-yields"] = true
+		}
 		g.line(`local x%d <close> = mkc(%d, %d, %d)`, g.ntbc, g.ntbc, mode, g.co())
 	case 6:
 		g.feat["error"] = true
@@ -187,7 +191,8 @@ const coroPrelude = `local function mkc(k, mode, j)
     if mode == 1 then emit("cr", coroutine.resume(_G["C"..j]))
     elseif mode == 2 then emit("cw", pcall(_G["W"..j]))
     elseif mode == 3 then emit("cst", coroutine.status(_G["C"..j]), pcall(coroutine.close, _G["C"..j]))
-    elseif mode == 4 then error("closeerr"..k) end
+    elseif mode == 4 then error("closeerr"..k)
+    elseif mode == 5 then emit("cy", pcall(coroutine.yield, "in-close" .. k)) end
   end})
 end
 `
